@@ -63,7 +63,7 @@ def reorient(obj, perm, flip):
     return o
 
 
-def build(rng, pardim, dim=None, order=2, refine=0, rational=False, right_handed=False, phi=None, cells=None, kind=None):
+def build(rng, pardim, dim=None, order=2, refine=0, rational=False, right_handed=False, phi=None, cells=None, kind=None, repeat_knot=False):
     """returns dict(patches=[SplineObject], cells=[...], kind=..., expected={d: count}, phi=phi)"""
     from splipy import BSplineBasis, Curve, Surface, Volume
     dim = dim or max(pardim, rng.choice([2, 3]))
@@ -83,6 +83,13 @@ def build(rng, pardim, dim=None, order=2, refine=0, rational=False, right_handed
             o.raise_order(*([order - 2] * pardim))
         if refine:
             o.refine(refine)
+        if repeat_knot and order >= 3:
+            # a repeated interior knot (multiplicity 2, still continuous) at the symmetric position 1/2 of every
+            # direction of every patch: interfaces stay conforming under every re-orientation
+            for d_ in range(pardim):
+                have = sum(1 for x in o.knots(d_, with_multiplicities=True) if abs(x - 0.5) < 1e-12)
+                if have < 2:
+                    o.insert_knot([0.5] * (2 - have), d_)
         if rational:
             o.force_rational()
         ors = orientations(pardim)
